@@ -67,10 +67,11 @@ Theorem C16_no_panic_compile_refuted :
   (forall v o name, g_wc_must v = true -> g_wc_quote v = false -> o_wc_raw o name = false ->
                     wildcard_compile v o name = Panic SWildcard) /\
   (forall v, g_traverse_struct v = false -> traverse v true = Panic STraverseStruct) /\
-  (forall v, g_omap_nil v = false -> for_deepcopy v (Some true) = Panic SMatrixNilMap).
+  (forall v, g_omap_nil v = false -> for_deepcopy v (Some true) = Panic SMatrixNilMap) /\
+  (forall v, g_deepcopy_nil v = false -> slice_deepcopy v (set_sources task0 [None]) = Panic SDeepCopyNil).
 Proof.
   exact (conj refuted_glob_nil (conj refuted_platform_nil (conj refuted_requires_nil
-        (conj refuted_wildcard (conj refuted_traverse refuted_matrix_nil_map))))).
+        (conj refuted_wildcard (conj refuted_traverse (conj refuted_matrix_nil_map refuted_deepcopy_nil)))))).
 Qed.
 Print Assumptions C16_no_panic_compile_refuted.
 
